@@ -636,7 +636,14 @@ r_expand(const Expansion &expansion, const vector_string &args,
       int i = node._parm_number;
 
       string subst;
-      if (i < (int)args.size()) {
+      if (i == _variadic_param && node._paste && !have_va_args) {
+        // Special case GCC behavior: if __VA_ARGS__ is pasted to a comma and
+        // it has no tokens, the comma is removed.
+        if (!result.empty() && *result.rbegin() == ',') {
+          result.resize(result.size() - 1);
+        }
+      }
+      else if (i < (int)args.size()) {
         subst = args[i];
 
         if (i == _variadic_param) {
@@ -647,6 +654,10 @@ r_expand(const Expansion &expansion, const vector_string &args,
         if (node._stringify) {
           subst = stringify(subst);
         }
+      }
+      else if (node._stringify) {
+        // #__VA_ARGS__ without variable arguments is the empty string literal.
+        subst = stringify(subst);
       }
       else if (i == _variadic_param && node._paste) {
         // Special case GCC behavior: if __VA_ARGS__ is pasted to a comma and
